@@ -107,7 +107,12 @@ var properties = []Property{
 		Rules:     []string{"MAP.flow", "MAP.order", "MAP.split", "MAP.disable", "MAP.callers", "MAP.dispatch", "PANIC.index"},
 		Technique: "value-flow of Lookup's results, insertion/search order agreement, boundary-constant agreement, dominating-guard bounds proof",
 	},
-	 {ID: "C18"}, 
+	 
+	{ID: "C18", Title: "Variables are discovered exactly and names resolve case-insensitively",
+		Rules:     []string{"NAME.fold", "NAME.list", "NAME.discover", "STATE.parse", "STATE.template", "GRAM.deaderr"},
+		Technique: "def-use of the folded comparison operands, normalised splice expressions, guard analysis of the recording and auto-creation sites",
+	},
+	 
 	{ID: "C19", Title: "Evaluation is pure and repeatable, also under concurrent use",
 		Rules:     []string{"PURE.eval", "PURE.global", "PURE.nogo"},
 		Technique: "interprocedural effect analysis with a freshness (ownership) fixpoint over the call graph",
